@@ -21,7 +21,7 @@ from vmon.util import derive_rng, shash
 
 LEVEL = "exploration"
 MANIFEST = {
-    "text": "Layer (i), exhaustive: for tables of n rows (quick n<=5, thorough n<=7) ALL 2^(n-1) cut vectors plus empty-partition variants, with unknown and (where truthful) known divisions, are run on the real code for a battery of ~110 single-operator queries over every operator family (elementwise, reductions, groupby agg/apply/transform/cumulative, cumulative, shift/diff/fill, rolling windows 1..n incl. centered, value_counts/unique/drop_duplicates/nlargest, loc, sort/set_index); two-input operators (merge of every kind and key placement, concat on both axes, aligned binary ops, where/fillna/assign from another frame) get independent cut vectors for each operand. Layer (ii): random generator programs over random layouts. Every successful result is compared with pandas on the concatenated input under the operator's order/index flags; refusals are counted, never judged.",
+    "text": "Layer (i), exhaustive: for tables of n rows (quick n<=5, thorough n<=7) ALL 2^(n-1) cut vectors plus empty-partition variants, with unknown and (where truthful) known divisions, are run on the real code for a battery of ~110 single-operator queries over every operator family (elementwise, reductions, groupby agg/apply/transform/cumulative, cumulative, shift/diff/fill, rolling windows 1..n incl. centered, value_counts/unique/drop_duplicates/nlargest, loc, sort/set_index); two-input operators (merge of every kind and key placement, concat on both axes, aligned binary ops, where/fillna/assign from another frame) get independent cut vectors for each operand. Layer (ii): random generator programs over random layouts. Every successful result is compared with pandas on the concatenated input under the operator's order/index flags; refusals are counted, never judged. The two-input battery includes the broadcast lowering of every join kind.",
     "note": "exhaustive=true refers to layer (i) within the stated bounds. pandas is the reference model; its input is the concatenation of the source's own partitions so that dask-expr's dtypes (pyarrow strings) are used. Tie-dependent operators are made tie-free or compared as multisets.",
     "technique": "runtime monitoring: exhaustive bounded enumeration of partitionings + differential oracle against pandas, with M-rule recording the lowering paths taken",
     "design_ref": "DESIGN.md section 4, C02",
